@@ -73,6 +73,41 @@ def parse_bvll(data):
     return out
 
 
+def split_npdu(octets):
+    """Clause 6.2.2: version, control, [DNET DLEN DADR] [SNET SLEN SADR] [hop count] then a network message or an APDU.
+    Returns {"dnet", "dadr", "snet", "sadr", "hops", "apdu"}; "apdu" is None for a network layer message."""
+    b = bytes(octets)
+    if len(b) < 2 or b[0] != 0x01:
+        raise BvllError("not a version 1 NPDU")
+    ctl = b[1]
+    i = 2
+    out = {"dnet": None, "dadr": None, "snet": None, "sadr": None, "hops": None, "apdu": None}
+    if ctl & 0x20:
+        if len(b) < i + 3:
+            raise BvllError("NPDU ends inside DNET/DLEN")
+        out["dnet"] = (b[i] << 8) | b[i + 1]
+        n = b[i + 2]
+        out["dadr"] = b[i + 3:i + 3 + n]
+        i += 3 + n
+    if ctl & 0x08:
+        if len(b) < i + 3:
+            raise BvllError("NPDU ends inside SNET/SLEN")
+        out["snet"] = (b[i] << 8) | b[i + 1]
+        n = b[i + 2]
+        out["sadr"] = b[i + 3:i + 3 + n]
+        i += 3 + n
+    if ctl & 0x20:
+        if len(b) < i + 1:
+            raise BvllError("NPDU ends before the hop count")
+        out["hops"] = b[i]
+        i += 1
+    if len(b) < i:
+        raise BvllError("NPDU shorter than its header")
+    if not ctl & 0x80:
+        out["apdu"] = b[i:]
+    return out
+
+
 # --------------------------------------------------------------------------------------- J.4.5 as set algebra
 
 class Topology(object):
